@@ -70,6 +70,17 @@ impl<T> Iterator for Items<T> {
   type Item = T;
   fn next(&mut self) -> Option<Self::Item> {
     // TODO: add error reporting here
+    #[cfg(feature = "verif-hooks")]
+    {
+      ast_grep_core::verif::failpoint("recv");
+      let ret = self.0.recv().ok();
+      ast_grep_core::verif::emit(
+        "recv",
+        &[("got", ast_grep_core::verif::V::B(ret.is_some()))],
+      );
+      return ret;
+    }
+    #[cfg(not(feature = "verif-hooks"))]
     self.0.recv().ok()
   }
 }
@@ -126,13 +137,44 @@ fn run_worker<W: PathWorker + ?Sized + 'static, P: Printer>(
         let Some(p) = filter_result(result) else {
           return WalkState::Continue;
         };
+        #[cfg(feature = "verif-hooks")]
+        let vpath = p.display().to_string();
+        #[cfg(feature = "verif-hooks")]
+        {
+          use ast_grep_core::verif::{emit, failpoint, V};
+          failpoint("produce");
+          emit("produce_begin", &[("path", V::S(&vpath))]);
+        }
         let stats = w.get_trace();
         stats.add_scanned();
         let Ok(items) = w.produce_item::<P>(&p, processor) else {
+          #[cfg(feature = "verif-hooks")]
+          ast_grep_core::verif::emit(
+            "produce_end",
+            &[
+              ("path", ast_grep_core::verif::V::S(&vpath)),
+              ("skipped", ast_grep_core::verif::V::B(true)),
+              ("items", ast_grep_core::verif::V::U(0)),
+            ],
+          );
           stats.add_skipped();
           return WalkState::Continue;
         };
+        #[cfg(feature = "verif-hooks")]
+        ast_grep_core::verif::emit(
+          "produce_end",
+          &[
+            ("path", ast_grep_core::verif::V::S(&vpath)),
+            ("skipped", ast_grep_core::verif::V::B(false)),
+            ("items", ast_grep_core::verif::V::U(items.len() as u64)),
+          ],
+        );
         for result in items {
+          #[cfg(feature = "verif-hooks")]
+          {
+            ast_grep_core::verif::failpoint("send");
+            ast_grep_core::verif::emit("send", &[("path", ast_grep_core::verif::V::S(&vpath))]);
+          }
           match tx.send(result) {
             Ok(_) => continue,
             Err(_) => return WalkState::Quit,
